@@ -335,7 +335,7 @@ impl Property for C06P {
          site recorded by the renderer: D01 cut before a closing quote, D02 cut before a flow closer, D03 swap ] and } or put an extra closer of the other kind before the right one, D04 tab instead \
          of the indentation of the first entry of a nested block collection, D05 re-indent a non-first entry strictly between parent and \
          own indentation (gap >= 2), D06 put a flow continuation line at the enclosing block's indentation (sub-classes by first token), \
-         D07 break a quoted implicit key (of a block mapping, or of a single pair in a flow sequence) over two lines, D08 lengthen an implicit key (plain / quoted; of a block mapping or of a single pair in a flow sequence) by 1100 characters, D09 append a \
+         D07 break a quoted implicit key (of a block mapping, or of a single pair in a flow sequence) over two lines, D08 lengthen an implicit key (plain / quoted, with or without node properties, or a flow collection given a 1100-character first entry; of a block mapping or of a single pair in a flow sequence) by 1100 characters, D09 append a \
          second quoted / flow root after a completed quoted / flow root, D10 unknown escape letters and \\x \\u \\U with a missing or non-hexadecimal digit (letter, sign, blank, underscore), D11 replace \
          a plain value by an alias to a name never anchored or anchored only in an earlier document, D12 prefix a value with '!zz!x' or with a handle declared only by an earlier document, D13 two %YAML lines, D14 a directive before \
          a bare document or at the end of the stream, D15 text after '...' on the same line. Plus the 94 error cases of the test suite. \
